@@ -32,9 +32,8 @@ impl Buildpack for B {
 #[allow(dead_code)]
 type Unused = GenericError;
 
-/// the buildpack's own metadata type: one required string field, unknown keys rejected
+/// the buildpack's own metadata type: one required string field; other keys of a stored table are ignored (C01's lossy-M scenarios)
 #[derive(Serialize, Deserialize, Debug, Clone, PartialEq)]
-#[serde(deny_unknown_fields)]
 pub struct M {
     pub v: String,
 }
@@ -482,7 +481,12 @@ mod trait_layer {
         let t = &req["types"];
         let types = LayerTypes { launch: t["launch"].as_bool().unwrap_or(false), build: t["build"].as_bool().unwrap_or(false), cache: t["cache"].as_bool().unwrap_or(false) };
         let layer = Scripted { types, script: &script, log: &log, root: root.to_path_buf() };
+        // arms the LD_PRELOAD fault injector, if one is loaded (C12's trait-API fault replays)
+        if req["arm"].as_bool() == Some(true) {
+            let _ = std::fs::remove_file("/__verif_arm__");
+        }
         let r = ctx.handle_layer(name, layer);
+        let _ = std::fs::remove_file("/__verif_disarm__");
         let scopes = [("all", Scope::All), ("build", Scope::Build), ("launch", Scope::Launch), ("web", Scope::Process("web".into()))];
         let env_view = |e: &LayerEnv| -> Value {
             let mut m = serde_json::Map::new();
